@@ -27,6 +27,9 @@ def plan(tier):
     # dense crashes (several per height, torn last records): a node that loses what it logged forgets its lock
     p.sims.append((tm.Cfg('sim-n3-crash-dense', [1, 1, 2], [1], max_round=2, max_height=2, nbyz=1, budget=2, crashes=6,
                           crash_set=[2, 3], own_first=False, useful_only=True, torn=True), n, d + 50))
+    # total voting power = 2 (mod 3)
+    p.sims.append((tm.Cfg('sim-n3p122', [1, 2, 2], [1], max_round=2, max_height=2, nbyz=1, budget=-1, own_first=False,
+                          useful_only=False), n, d))
     # validator-set change between heights 1 and 2 (power update of an honest validator; partial synchrony so that heights finish)
     p.sims.append((tm.Cfg('sim-n4-power-update', [1, 1, 1, 1], [4], max_round=2, max_height=2, nbyz=1, budget=4, own_first=False,
                           useful_only=True, sync=True, next_power={2: [2, 1, 1, 1]}), n, d + 90))
